@@ -72,6 +72,9 @@ var sigTable = []string{
 
 const frequentSigs = 4
 
+// focusSlots is the rotation of the frequent classes: the rarer of them get more turns.
+var focusSlots = []int{0, 1, 3, 2, 3, 1, 4, 3, 2}
+
 var exoticCaseNo int
 
 // include reports whether the generator produces the input class of the
@@ -122,8 +125,15 @@ func crashSig(msg string) string {
 		return "unify-max-depth-exceeded"
 	case strings.Contains(pm, "ast.Walk: unexpected node type <nil>"):
 		return "copyexpr-indexlist-nil-index"
-	case has("sharedcheck.RedundantTypeInDeclarationChecker") && strings.Contains(pm, "cannot infer"):
+	case strings.Contains(pm, "nil pointer dereference") && strings.Contains(top, "unused.(*graph).use"):
+		// an identifier without an object: the syntax tree was modified after type checking, which
+		// is what CopyExpr does to the index lists of explicit instantiations (same root cause)
+		return "copyexpr-indexlist-nil-index"
+	case strings.Contains(msg, "RedundantTypeInDeclarationChecker") && strings.Contains(pm, "cannot infer"):
 		return "redundant-type-partial-instantiation"
+	}
+	if strings.Contains(msg, "did not terminate within") {
+		return "no-termination"
 	}
 	if pm == "" {
 		// not a crash: compile/config problem or bad exit status
@@ -199,7 +209,7 @@ func (c *exoCase) nunits() int {
 
 // minimise removes units as long as the failure keeps its signature. It
 // evaluates at most maxEval candidates and stops at the deadline.
-func minimise(c *exoCase, sig string, maxEval int, stop func() bool) (*exoCase, int) {
+func minimise(c *exoCase, sig, msgOf string, maxEval int, stop func() bool) (*exoCase, int) {
 	evals := 0
 	still := func(cand *exoCase) bool {
 		evals++
@@ -223,8 +233,32 @@ func minimise(c *exoCase, sig string, maxEval int, stop func() bool) (*exoCase, 
 	if len(cur.pkgs) != 1 {
 		return cur, evals
 	}
-	// 2. halve the unit set of the package (dependencies are kept by Keep)
+	// 2. the units of one family only: the families that the crashing analyzer most likely looks at first
 	p := cur.pkgs[0]
+	for _, fam := range suspectFamilies(sig, msgOf) {
+		if evals >= maxEval || stop() {
+			return cur, evals
+		}
+		keep := map[int]bool{}
+		for _, u := range p.Units {
+			if u.Family == fam {
+				keep[u.ID] = true
+			}
+		}
+		if len(keep) == 0 {
+			continue
+		}
+		q := p.Keep(keep)
+		if len(q.Units) >= len(p.Units) {
+			continue
+		}
+		cand := &exoCase{pkgs: []*exogen.Package{q}, names: cur.names}
+		if still(cand) {
+			p, cur = q, cand
+			break
+		}
+	}
+	// 3. halve the unit set of the package (dependencies are kept by Keep)
 	ids := make([]int, 0, len(p.Units))
 	for _, u := range p.Units {
 		ids = append(ids, u.ID)
@@ -273,6 +307,31 @@ func minimise(c *exoCase, sig string, maxEval int, stop func() bool) (*exoCase, 
 	return cur, evals
 }
 
+// suspectFamilies orders at most three generator families by how likely their
+// units are what the crashing code looks at, judged by the frames of the crash.
+func suspectFamilies(sig, msg string) []string {
+	table := []struct{ frame, fams string }{
+		{"facts/nilness", "generic callgraph stmts"},
+		{"sa5009", "printf stmts"},
+		{"printf", "printf stmts"},
+		{"astutil", "chain api stmts"},
+		{"quickfix/qf100", "chain api stmts"},
+		{"stylecheck/", "typedecl docs generic"},
+		{"unused", "typedecl typeuse chain"},
+		{"typeutil", "typedecl typeuse generic"},
+		{"sharedcheck", "api docs stmts"},
+		{"simple/", "api chain stmts"},
+		{"staticcheck/sa4", "api callgraph chain"},
+		{"staticcheck/", "api stmts callgraph"},
+	}
+	for _, e := range table {
+		if strings.Contains(msg, e.frame) {
+			return strings.Fields(e.fams)
+		}
+	}
+	return []string{"api", "stmts", "chain"}
+}
+
 var (
 	seenMu   sync.Mutex
 	seenSigs = map[string]int{}
@@ -282,6 +341,15 @@ var (
 func TestExotic(t *testing.T) {
 	exoticStarted = true
 	ev.Rule(rule + exoticRule)
+	// The shards run side by side on all cores already; the go command and the linter started for
+	// a case gain nothing from starting one thread per core each (the kernel time of the run is as
+	// high as its user time without this).
+	lintTimeout = time.Duration(ev.EnvInt("C03_LINT_TIMEOUT_S", 240, 900)) * time.Second
+	defer func() { lintTimeout = 0 }()
+	if os.Getenv("GOMAXPROCS") == "" && ev.NShards() > 1 {
+		os.Setenv("GOMAXPROCS", fmt.Sprint(ev.EnvInt("C03_CHILD_GOMAXPROCS", 4, 4)))
+		defer os.Unsetenv("GOMAXPROCS")
+	}
 	ev.Assume("exogen packages: units that do not type-check in-process (go/types against the export data of the standard library) are removed before the module is written; `go build` and `go test -run ^$` must then accept the module, otherwise the case is counted as gen_invalid and skipped")
 	start := time.Now()
 	end, haveEnd := budgetEnd()
@@ -299,6 +367,9 @@ func TestExotic(t *testing.T) {
 		}
 		return ev.PastDeadline()
 	}
+	// a new failure may be minimised for a short time beyond the share (only runs that report a
+	// violation are prolonged by it)
+	grace := time.Duration(ev.EnvInt("C03_MINIMISE_GRACE_S", 60, 300)) * time.Second
 	failed := false
 	ev.Check(t, "TestExotic", func(rt *rapid.T) {
 		if stop() {
@@ -307,7 +378,7 @@ func TestExotic(t *testing.T) {
 		}
 		seenMu.Lock()
 		exoticCaseNo++
-		focus := (ev.Shard() + exoticCaseNo) % (frequentSigs + 1) // frequentSigs: none of them
+		focus := focusSlots[(ev.Shard()+exoticCaseNo)%len(focusSlots)] // frequentSigs: none of them
 		seenMu.Unlock()
 		maskBits := rapid.Uint64().Draw(rt, "class_bits")
 		maskBits = (maskBits ^ maskBits>>17) * 0x9E3779B97F4A7C15
@@ -405,7 +476,10 @@ func TestExotic(t *testing.T) {
 			return
 		}
 		// a new failure: minimise within the time share and report it, then go on searching
-		small, evals := minimise(c, sig, ev.EnvInt("C03_MINIMISE_EVALS", 14, 40), stop)
+		minStart := time.Now()
+		small, evals := minimise(c, sig, msg, ev.EnvInt("C03_MINIMISE_EVALS", 14, 40), func() bool {
+			return time.Since(minStart) > grace && stop()
+		})
 		ev.Count("minimise_evaluations", evals)
 		scs := small.toCase()
 		sjs, _ := json.MarshalIndent(scs, "", " ")
@@ -417,7 +491,10 @@ func TestExotic(t *testing.T) {
 			scs, sjs, smsg = cs, js, msg
 		}
 		failed = true
-		ev.Violate("TestExotic", fmt.Sprintf("[%s] staticcheck fails on a module that go build accepts (%d units after minimisation):\n%s", sig, small.nunits(), trunc(smsg, 2500)), "json", sjs)
+		seenMu.Lock()
+		caseNo := exoticCaseNo
+		seenMu.Unlock()
+		ev.Violate("TestExotic", fmt.Sprintf("[%s] staticcheck fails on a module that go build accepts (case %d of shard %d; %d of %d units left after %d minimisation steps):\n%s", sig, caseNo, ev.Shard(), small.nunits(), c.nunits(), evals, trunc(smsg, 2500)), "json", sjs)
 	})
 	if failed {
 		t.Errorf("TestExotic found failures (see VERIF-VIOLATION lines)")
